@@ -495,8 +495,14 @@ pub fn case_end(outcome: Outcome, walker: Walker, ticks: u64) -> Obs {
 
 /// Evaluates a program text with `nederlang::eval` under the hooks
 pub fn run_eval(src: &str, cfg: &RunCfg) -> Obs {
+    run_eval_bounds(src, cfg, None)
+}
+
+/// `run_eval` with the instruction boundaries of the program's bytecode supplied to the fetch probe
+pub fn run_eval_bounds(src: &str, cfg: &RunCfg, bounds: Option<Vec<bool>>) -> Obs {
     note_current("eval", src);
     case_begin(cfg.budget);
+    verif::set_boundaries(bounds);
     let r = catch_unwind(AssertUnwindSafe(|| nederlang::eval(src)));
     let ticks = verif::ticks();
     let mut w = Walker::new();
